@@ -9,7 +9,13 @@ no commitment ends up twice) and every transaction conserves value.  Histories: 
 (any new unspent set: next block or reorg), `reconcile_reorg_cache`, evictions, cache truncation.
 
 What is proved, and what is not (eviction, over-capacity admission, reorg to a lower height) is
-stated explicitly below, each with a kernel-checked witness. -/
+stated explicitly below, each with a kernel-checked witness.
+
+Sections: soundness of the aggregate check; `pool_inv` (histories without eviction); eviction
+(what it breaks); admission; inputs of pooled transactions across evictions at capacity
+(`admitted_inputs_available`, `child_of_evicted_refused`, `admission_at_capacity` — all
+histories); weight limit and submission form (`overweight_never_admitted`,
+`form_independent_admission`); the mineable set. -/
 namespace GV.Props.C14
 open GV.Pool
 
